@@ -683,6 +683,7 @@ structure HandlerShape where
   linkNoneGuard : Bool         -- `print_link_state` tolerates `p is None` (channel without link)
   idStringGuard : Bool         -- `sdr_show` prints `device_id_string` only if the record has one
   entityGuard : Bool           -- … `entity_id` / `entity_instance` only if the record has them
+  stateNoneGuard : Bool        -- `sdr_show` formats the sensor states only if there are any
   convCatch : List (String × List String)
       -- command ↦ exception classes caught somewhere between `convert_sensor_raw_to_value(…)` and `main`
   deriving Repr, DecidableEq
@@ -696,6 +697,11 @@ def sdrShowRaises (h : HandlerShape) (hasIdString hasEntity : Bool) : Option Str
   if !hasIdString && !h.idStringGuard then some "AttributeError"
   else if !hasEntity && !h.entityGuard then some "AttributeError"
   else none
+
+/-- the "Reading state" line of `sdr_show`: `get_sensor_reading` returns `(None, None)` while the sensor flags
+"reading/state unavailable" -/
+def sdrStateRaises (h : HandlerShape) (available : Bool) : Option String :=
+  if available || h.stateNoneGuard then none else some "TypeError"
 
 /-- SDR record type ↦ (has `device_id_string`, has `entity_id`) of the class `SdrCommon.from_data` builds -/
 def sdrAttrs (classes : List (Nat × Bool × Bool)) (dflt : Bool × Bool) (t : Nat) : Bool × Bool :=
